@@ -150,8 +150,8 @@ B("c09-enum-drop-missing", "C09", GROUP, "            elif orphaned_tail == Orph
 B("c09-no-final-flush", "C09", GROUP, "            join_head_to_tail(head, None)\n\n        yield from flush()", "            join_head_to_tail(head, None)", "flushed")
 B("c09-no-orphan-cleanup", "C09", GROUP, "        # Clean up orphaned heads\n        for head in held_columns.values():\n            join_head_to_tail(head, None)\n", "", "unclosed heads")
 B("c09-filter-only-when-joining", "C09", GROUP, "    notes = filter(\n        lambda note: note.note_type in include_note_types,\n        notes,\n    )\n\n    notes_maybe_with_tails: Iterator[_NoteMaybeWithTail]\n    if join_heads_to_tails:\n        notes_maybe_with_tails = join_heads_to_tails_(notes)", "    notes_maybe_with_tails: Iterator[_NoteMaybeWithTail]\n    if join_heads_to_tails:\n        notes = filter(\n            lambda note: note.note_type in include_note_types,\n            notes,\n        )\n        notes_maybe_with_tails = join_heads_to_tails_(notes)", "included note types")
-B("c09-attach-tail-player", "C09", GROUP, "            tail_beat=tail.beat,\n            player=head.player,", "            tail_beat=tail.beat,", "player")
-B("c09-attach-tail-beat", "C09", GROUP, "            tail_beat=tail.beat,", "            tail_beat=head.beat,", "tail_beat")
+B("c09-attach-tail-player", "C09", GROUP, "            tail_beat=tail.beat,\n            player=head.player,", "            tail_beat=tail.beat,", "per note")
+B("c09-attach-tail-beat", "C09", GROUP, "            tail_beat=tail.beat,", "            tail_beat=head.beat,", "per note")
 B("c09-join-all-as-separate", "C09", GROUP, "        elif same_beat_notes == SameBeatNotes.JOIN_ALL:\n            yield row\n", "", "JOIN_ALL")
 
 # --------------------------------------------------------------------------- C10
